@@ -12,6 +12,14 @@
 (* the chunks somewhere else (`tmp`) and commits on a successful close;    *)
 (* on a failure the temporary is discarded.                                *)
 (*                                                                         *)
+(* The target path may be a symbolic link (to an older complete output, or *)
+(* dangling): `file` is what reading the path yields (links followed, as   *)
+(* gen_file's os.path.exists does), `dest` is the file behind the link.    *)
+(* All-or-nothing covers both: a failed run changes neither.  A successful *)
+(* run may write through the link or replace the link (not prescribed).    *)
+(* The failure that interrupts a run may be of any kind (an OSError, a     *)
+(* KeyboardInterrupt, a SystemExit ...): the protocol is the same.         *)
+(*                                                                         *)
 (* Deviation clause  OpenTruncatesTarget : the target itself is opened for *)
 (* writing (truncated) and the chunks go straight into it.                 *)
 (* Deviation clause  NoCleanup : the temporary is left behind on failure   *)
@@ -26,7 +34,9 @@ DeviationNames == {"OpenTruncatesTarget", "NoCleanup"}
 Truncates == "OpenTruncatesTarget" \in Dev
 
 VARIABLES
-  file,      \* the target on disk: "absent" | "old" | "partial" | "complete"
+  file,      \* the target on disk (through a link if it is one): "absent" | "old" | "partial" | "complete"
+  dest,      \* the file behind the link when the target is a symbolic link, else "none"
+  pdest,     \* what dest was when the run started
   tmp,       \* anything else the run has put into the output directory: "none" | "partial" | "complete"
   pc,        \* "idle" | "started" | "open" | "done" | "skipped" | "crashed"
   reported,  \* the run has returned to its caller (normally or with the failure)
@@ -36,24 +46,33 @@ VARIABLES
   w,         \* chunks written so far in this run
   run        \* 0 before the first run, 1, 2 (the later run without --overwrite)
 
-vars == <<file, tmp, pc, reported, ow, pre, n, w, run>>
+vars == <<file, dest, pdest, tmp, pc, reported, ow, pre, n, w, run>>
 
-Init == /\ file \in {"absent", "old"} /\ tmp = "none" /\ pc = "idle" /\ reported = FALSE
+\* target kinds: absent, an old complete output, a link to an old complete output, a dangling link
+Kinds == { <<"absent", "none">>, <<"old", "none">>, <<"old", "old">>, <<"absent", "absent">> }
+FailureKinds == {"OSError", "KeyboardInterrupt", "SystemExit", "GeneratorExit"}
+
+Init == /\ \E k \in Kinds : file = k[1] /\ dest = k[2]
+        /\ pdest = dest /\ tmp = "none" /\ pc = "idle" /\ reported = FALSE
         /\ ow = FALSE /\ pre = file /\ n = 0 /\ w = 0 /\ run = 0
 
 \* the generator is started on a target that is absent or holds an old complete output
 Start(o, k) ==
   /\ pc = "idle" /\ run = 0 /\ k >= 1
-  /\ pc' = "started" /\ ow' = o /\ pre' = file /\ n' = k /\ w' = 0 /\ run' = 1
-  /\ UNCHANGED <<file, tmp, reported>>
+  /\ pc' = "started" /\ ow' = o /\ pre' = file /\ pdest' = dest /\ n' = k /\ w' = 0 /\ run' = 1
+  /\ UNCHANGED <<file, dest, tmp, reported>>
 
+Contents == {"absent", "old", "partial", "complete"}
 MayWrite == ow \/ file = "absent"
 
 \* gen_file: an existing target is left alone unless overwrite is given
 Skip ==
   /\ pc = "started" /\ ~MayWrite
   /\ pc' = "skipped"
-  /\ UNCHANGED <<file, tmp, reported, ow, pre, n, w, run>>
+  /\ UNCHANGED <<file, dest, pdest, tmp, reported, ow, pre, n, w, run>>
+
+\* writing straight into the target goes through a link into the file behind it
+Through(level) == IF dest = "none" THEN "none" ELSE level
 
 \* the output is opened.  In the documented protocol nothing the run writes
 \* is visible under the target's name before the close (`tmp` stands for
@@ -64,55 +83,59 @@ Open(onTarget) ==
   /\ pc = "started" /\ MayWrite
   /\ Truncates => onTarget
   /\ pc' = "open"
-  /\ IF Truncates THEN file' = "partial" /\ tmp' = tmp
-                  ELSE file' = file /\ tmp' = "partial"
-  /\ UNCHANGED <<reported, ow, pre, n, w, run>>
+  /\ IF Truncates THEN file' = "partial" /\ tmp' = tmp /\ dest' = Through("partial")
+                  ELSE file' = file /\ tmp' = "partial" /\ dest' = dest
+  /\ UNCHANGED <<pdest, reported, ow, pre, n, w, run>>
 
 Level(k) == IF k = n THEN "complete" ELSE "partial"
 
 Write ==
   /\ pc = "open" /\ w < n
   /\ w' = w + 1
-  /\ IF Truncates THEN file' = Level(w + 1) /\ tmp' = tmp
-                  ELSE tmp' = Level(w + 1) /\ file' = file
-  /\ UNCHANGED <<pc, reported, ow, pre, n, run>>
+  /\ IF Truncates THEN file' = Level(w + 1) /\ tmp' = tmp /\ dest' = Through(Level(w + 1))
+                  ELSE tmp' = Level(w + 1) /\ file' = file /\ dest' = dest
+  /\ UNCHANGED <<pdest, pc, reported, ow, pre, n, run>>
 
 Flush == pc = "open" /\ UNCHANGED vars
 
-\* a successful close commits the temporary as the target
+\* a successful close commits the temporary as the target; if the target is a link the
+\* commit either replaces the link (the file behind it is untouched) or goes through it
 Close ==
   /\ pc = "open" /\ w = n
   /\ pc' = "done" /\ file' = "complete" /\ tmp' = "none"
-  /\ UNCHANGED <<reported, ow, pre, n, w, run>>
+  /\ dest' \in (IF dest = "none" THEN {"none"} ELSE IF Truncates THEN {"complete"} ELSE {dest, "complete"})
+  /\ UNCHANGED <<pdest, reported, ow, pre, n, w, run>>
 
-\* the open, a write, a flush or the close fails: the failing call has no
-\* effect; the temporary is discarded, the target stays what it is
-Crash ==
+\* the open, a write, a flush or the close fails -- with whatever kind of failure: the
+\* failing call has no effect; the temporary is discarded, the target stays what it is
+Crash(kind) ==
+  /\ kind \in FailureKinds
   /\ \/ pc = "started" /\ MayWrite
      \/ pc = "open"
   /\ pc' = "crashed"
   /\ tmp' = IF "NoCleanup" \in Dev THEN tmp ELSE "none"
-  /\ UNCHANGED <<file, reported, ow, pre, n, w, run>>
+  /\ UNCHANGED <<file, dest, pdest, reported, ow, pre, n, w, run>>
 
 \* the run returns: with the failure iff it crashed
 End(raised) ==
   /\ pc \in {"done", "skipped", "crashed"} /\ ~reported
   /\ raised = (pc = "crashed")
   /\ reported' = TRUE
-  /\ UNCHANGED <<file, tmp, pc, ow, pre, n, w, run>>
+  /\ UNCHANGED <<file, dest, pdest, tmp, pc, ow, pre, n, w, run>>
 
 \* what a look at the output directory shows after the run
-Observe(cls, others) ==
+Observe(cls, others, dcls) ==
   /\ reported
   /\ cls = file
+  /\ dcls = dest
   /\ others = (IF tmp = "none" THEN 0 ELSE 1)
   /\ UNCHANGED vars
 
 \* a later run of the same generator on the same input, without --overwrite
 Rerun ==
   /\ reported /\ run = 1
-  /\ pc' = "started" /\ ow' = FALSE /\ pre' = file /\ w' = 0 /\ run' = 2 /\ reported' = FALSE
-  /\ UNCHANGED <<file, tmp, n>>
+  /\ pc' = "started" /\ ow' = FALSE /\ pre' = file /\ pdest' = dest /\ w' = 0 /\ run' = 2 /\ reported' = FALSE
+  /\ UNCHANGED <<file, dest, tmp, n>>
 
 Next ==
   \/ \E o \in BOOLEAN, k \in 1..MaxN : Start(o, k)
@@ -121,9 +144,9 @@ Next ==
   \/ Write
   \/ Flush
   \/ Close
-  \/ Crash
+  \/ \E k \in FailureKinds : Crash(k)
   \/ \E r \in BOOLEAN : End(r)
-  \/ \E cls \in {"absent", "old", "partial", "complete"}, k \in 0..1 : Observe(cls, k)
+  \/ \E cls \in Contents, k \in 0..1, d \in Contents \cup {"none"} : Observe(cls, k, d)
   \/ Rerun
 
 Spec == Init /\ [][Next]_vars
@@ -132,18 +155,19 @@ Spec == Init /\ [][Next]_vars
 \* Properties (C31)
 
 TypeOK ==
-  /\ file \in {"absent", "old", "partial", "complete"} /\ tmp \in {"none", "partial", "complete"}
+  /\ file \in Contents /\ dest \in Contents \cup {"none"} /\ pdest \in Contents \cup {"none"}
+  /\ tmp \in {"none", "partial", "complete"}
   /\ pc \in {"idle", "started", "open", "done", "skipped", "crashed"}
-  /\ reported \in BOOLEAN /\ ow \in BOOLEAN /\ pre \in {"absent", "old", "partial", "complete"}
+  /\ reported \in BOOLEAN /\ ow \in BOOLEAN /\ pre \in Contents
   /\ n \in 0..MaxN /\ w \in 0..n /\ run \in 0..2
 
 AtRest == pc \in {"idle", "done", "skipped", "crashed"}
 
 \* all-or-nothing: after a failure the target is absent or holds the previous complete content
-AllOrNothing == pc = "crashed" => (file = pre /\ file # "partial")
+AllOrNothing == pc = "crashed" => (file = pre /\ file # "partial" /\ dest = pdest)
 
 \* no partially written file is left behind, under whatever name
-NothingPartialLeft == AtRest => (file # "partial" /\ tmp = "none")
+NothingPartialLeft == AtRest => (file # "partial" /\ tmp = "none" /\ dest # "partial")
 
 \* a run never skips a truncated file as already generated
 NoSkipOfPartial == pc = "skipped" => file \in {"old", "complete"}
